@@ -694,3 +694,104 @@ func TestModuleMutations(t *testing.T) {
 		}
 	}
 }
+
+// ---- signature / PSV0 mutations ----
+
+func TestSignaturePSVMutations(t *testing.T) {
+	vs, _ := compileWGSL(t, vsfsWGSL, 0, dxil.DefaultOptions())
+	e := Expect{Stage: "vertex", SMMajor: 6}
+	wantClean(t, Check(vs, e))
+	mutPart := func(b []byte, fc string, f func(d []byte) []byte) []byte {
+		fcs, datas := splitContainer(b)
+		for i := range fcs {
+			if fcs[i] == fc {
+				datas[i] = f(datas[i])
+			}
+		}
+		return buildContainer(fcs, datas)
+	}
+	in := func(f func(d []byte)) func([]byte) []byte {
+		return func(d []byte) []byte { f(d); return d }
+	}
+	for _, tc := range []struct {
+		name, part, rule string
+		f                func(d []byte) []byte
+	}{
+		{"count too large", "ISG1", "sig.header", in(func(d []byte) { put32(d, 0, 100) })},
+		{"param offset", "ISG1", "sig.header", in(func(d []byte) { put32(d, 4, 12) })},
+		{"truncated header", "ISG1", "sig.header", func(d []byte) []byte { return d[:4] }},
+		{"name offset outside", "ISG1", "sig.name", in(func(d []byte) { put32(d, 8+4, 4000) })},
+		{"name offset into table", "ISG1", "sig.name", in(func(d []byte) { put32(d, 8+4, 16) })},
+		{"name unterminated", "ISG1", "sig.name", in(func(d []byte) {
+			for i := int(le32(d, 8+4)); i < len(d); i++ {
+				d[i] = 'A'
+			}
+		})},
+		{"mask zero", "ISG1", "sig.mask", in(func(d []byte) { d[8+24] = 0 })},
+		{"mask high bits", "ISG1", "sig.mask", in(func(d []byte) { d[8+24] = 0x1F })},
+		{"component type", "ISG1", "sig.element", in(func(d []byte) { put32(d, 8+16, 40) })},
+		{"register 40", "ISG1", "sig.element", in(func(d []byte) { put32(d, 8+20, 40) })},
+		{"duplicate semantic", "ISG1", "sig.duplicate", in(func(d []byte) { put32(d, 8+32+8, le32(d, 8+8)) })},
+		{"register overlap", "OSG1", "sig.duplicate", in(func(d []byte) { put32(d, 8+32+20, le32(d, 8+20)); d[8+32+24] = d[8+24] })},
+		{"one element fewer", "OSG1", "psv.sig-count", in(func(d []byte) {
+			// drop the last element by shrinking the count (names stay where they are)
+			put32(d, 0, le32(d, 0)-1)
+		})},
+		{"info size", "PSV0", "psv.info-size", in(func(d []byte) { put32(d, 0, 40) })},
+		{"stage byte", "PSV0", "psv.stage", in(func(d []byte) { d[4+24] = 0 })},
+		{"truncated", "PSV0", "psv.layout", func(d []byte) []byte { return d[:len(d)-4] }},
+		{"extra dword", "PSV0", "psv.layout", func(d []byte) []byte { return append(d, 0, 0, 0, 0) }},
+		{"input element count", "PSV0", "psv.layout", in(func(d []byte) { d[4+28]++ })},
+		{"string table size", "PSV0", "psv.string-table", in(func(d []byte) { put32(d, 4+52+4, le32(d, 4+52+4)+1) })},
+		{"sig element size", "PSV0", "psv.sig-elements", in(func(d []byte) {
+			st := int(le32(d, 4+52+4))
+			o := 4 + 52 + 4 + 4 + st
+			n := int(le32(d, o))
+			put32(d, o+4+4*n, 20)
+		})},
+		{"sig element name offset", "PSV0", "psv.sig-elements", in(func(d []byte) {
+			st := int(le32(d, 4+52+4))
+			o := 4 + 52 + 4 + 4 + st
+			n := int(le32(d, o))
+			put32(d, o+4+4*n+4, 5000)
+		})},
+		{"sig element cols", "PSV0", "psv.sig-elements", in(func(d []byte) {
+			st := int(le32(d, 4+52+4))
+			o := 4 + 52 + 4 + 4 + st
+			n := int(le32(d, o))
+			d[o+4+4*n+4+10] = 0x35 // 5 columns starting at 3
+		})},
+		{"sig element rows vs metadata", "PSV0", "dxmeta.signature", in(func(d []byte) {
+			st := int(le32(d, 4+52+4))
+			o := 4 + 52 + 4 + 4 + st
+			n := int(le32(d, o))
+			d[o+4+4*n+4+9]++ // start row
+		})},
+	} {
+		r := Check(mutPart(vs, tc.part, tc.f), e)
+		wantRuleT(t, tc.part+" "+tc.name, r, tc.rule)
+		if r.Fired["internal.panic"] != 0 {
+			t.Errorf("%s: checker panicked", tc.name)
+		}
+	}
+	// compute container: resources and numthreads
+	b := baseContainer(t)
+	for _, tc := range []struct {
+		name, rule string
+		f          func(d []byte) []byte
+	}{
+		{"numthreads", "dxmeta.numthreads", in(func(d []byte) { put32(d, 4+36, 9) })},
+		{"resource count +1", "psv.resources", in(func(d []byte) { put32(d, 4+52, le32(d, 4+52)+1) })},
+		{"bind info size", "psv.resources", in(func(d []byte) { put32(d, 4+52+4, 20) })},
+		{"resource type", "psv.resources", in(func(d []byte) { put32(d, 4+52+8, 12) })},
+		{"resource space", "dxmeta.resources", in(func(d []byte) { put32(d, 4+52+8+4, 3) })},
+		{"resource upper < lower", "psv.resources", in(func(d []byte) { put32(d, 4+52+8+8, 7); put32(d, 4+52+8+12, 2) })},
+		{"entry name", "dxmeta.entry", in(func(d []byte) {
+			st := 4 + 52 + 4 + 4 + 2*24 + 4
+			d[st+int(le32(d, 4+48))] = 'X'
+		})},
+	} {
+		r := Check(mutPart(b, "PSV0", tc.f), baseExpect)
+		wantRuleT(t, "PSV0 "+tc.name, r, tc.rule)
+	}
+}
